@@ -147,4 +147,19 @@ def run(pid: str, tier: str, seed: int, selftest=False, replay=None) -> int:
                               f"({len(bad)}/{len(vs)} oracles)",
                               {"source": c["text"], "before_csr": c["a_text"], "after_csr": c["b_text"],
                                "oracle": oracle_at(c, oi), "clause": verdict, "accdecl": c["extra"]["accdecl"]})
+    # ---- map part: injectivity of the register map of every accelerator x configuration (shared enumeration with C08)
+    import checks_regfile
+    from objs import run_obj_batch
+    maps, _ = checks_regfile.run("C04", tier, seed)
+    r, verdicts = run_obj_batch(pid, maps, tag="regmaps")
+    rep.add_tlc(r)
+    rep.extra["register_maps_checked"] = len(maps)
+    for tid, v in verdicts.items():
+        c = maps[tid - 1]
+        rep.evaluations += 1
+        rep.nontrivial.add("map:" + str(c["addrs"]))
+        if v != "ok":
+            dup = sorted({a for a in c["addrs"] if c["addrs"].count(a) > 1})
+            shared = {a: [n for n, x in zip(c["names"], c["addrs"]) if x == a] for a in dup}
+            rep.violation(c["name"], f"clause {v} fails: registers shared {shared}", {"names": c["names"], "addrs": c["addrs"]})
     return rep.finish(known)
